@@ -11,9 +11,14 @@ from __future__ import annotations
 
 from fractions import Fraction
 
+import sys
+
 import z3
 
 from . import engine as E
+
+if hasattr(sys, "set_int_max_str_digits"):
+    sys.set_int_max_str_digits(0)
 
 TOL = Fraction(1, 10000)
 HYP = Fraction(1, 10**7)
@@ -94,7 +99,8 @@ def ev(model, z):
     if z3.is_rational_value(v):
         return Fraction(v.numerator_as_long(), v.denominator_as_long())
     if z3.is_algebraic_value(v):
-        return Fraction(v.approx(30).numerator_as_long(), v.approx(30).denominator_as_long())
+        a = v.approx(12)
+        return Fraction(a.numerator_as_long(), a.denominator_as_long())
     if z3.is_int_value(v):
         return Fraction(v.as_long())
     raise ValueError(f"cannot evaluate {z} -> {v}")
